@@ -68,7 +68,10 @@ def nested(depth, rng=None, broken=None):
 
 UNI = ['\u00a0', '\u2028', '\u2029', '\u0085', '\u3000', '\x1c', '\x1d', '\x1e', '\x0b', '\x0c',
        '\u00e9', '\u4e2d', '\U0001f600', '\u200b', '\ufeff', '\x00', '\x7f', '\ud800',
-       '\u017f', '\u212a', '\u0130', '\u0131', '\u043a', '\uff41', '\uff11', '\u0661', '\u00b2', '\u00df']
+       '\u017f', '\u212a', '\u0130', '\u0131', '\u043a', '\uff41', '\uff11', '\u0661', '\u00b2', '\u00df',
+       'e\u0301', '\u212b', 'o\u031b\u0309', '\u1112\u1161\u11ab', '\ufb01']
+# (the last five are not in Unicode normal form C/KC: combining sequences, the Angstrom sign, conjoining jamo,
+#  the fi ligature - text is never normalised on the way in or out)
 # letters/digits that case-fold or digit-classify surprisingly (long s, Kelvin sign, dotted/dotless i,
 # Cyrillic ka, full-width a and 1, Arabic-Indic 1, superscript 2, sharp s)
 ODD_LETTERS = ['\u017f', '\u212a', '\u0130', '\u0131', '\u043a', '\uff41', '\u00e9', '\u00df', 'e', 'E', 'Z']
@@ -109,7 +112,7 @@ def corrupt_text(rng, s):
 
 
 META_BITS = ['::id 1', '::snt a b', '::k', '::k  v', ':: v', '::', '::a::b', ':::c', '::date 2012-12-23',
-             '::x\ty', '::tok ( ) / : ~ "', '::u \u2028z', '::e \xa0', '::alignments 0-1 1-2', 'plain',
+             '::x\ty', '::tok ( ) / : ~ "', '::u \u2028z', '::e \xa0', '::alignments 0-1 1-2', 'plain', '::nfd cafe\u0301 \u212b',
              ';; note', '::k: v:', '::url http://x/y::z']
 META_GAPS = [' ', '  ', '   ', '\t', ' \t ', '']
 
@@ -123,3 +126,21 @@ def comment_line(rng):
     for i, p in enumerate(parts):
         line += (rng.choice(META_GAPS) if i else '') + p
     return line + rng.choice(['', ' ', '  \t'])
+
+
+def insert_at_token_boundary(rng, s, k=1):
+    """a text with k lexically significant characters inserted exactly at a token start (3/4) or
+    end (1/4), located with the reference lexer: '#' there starts a comment that runs to the end
+    of the line whatever the line looks like, '"' opens a string that swallows the rest, ..."""
+    from pmon.ref import lexer as RL
+    lines = RL.split_lines(s)
+    for _ in range(k):
+        li = rng.randrange(len(lines))
+        toks = RL.lex_line(lines[li], li + 1, False)
+        if not toks:
+            continue
+        tk = rng.choice(toks)
+        at = tk[3] + (0 if rng.random() < 0.75 else len(tk[1]))
+        ch = rng.choice(['#', '#', '#', '"', '~', ':', '/', '(', ')', '\\', '^', ','])
+        lines[li] = lines[li][:at] + ch + lines[li][at:]
+    return '\n'.join(lines)
